@@ -378,6 +378,9 @@ class RealWorld:
             return np.array(v, dtype=float).reshape((n,) if op["ndim"] == 1 else (n, cols))
         if k == "text":
             return np.array(v, dtype=str).reshape((n,) if op["ndim"] == 1 else (n, cols))
+        if k == "time" and op.get("conv_of") is not None:
+            # the (cached) conversion of another array to a time scale, kept as a field: `add_time("t_gps", val=t.gps)`
+            return getattr(self.resolve(op["conv_of"]), op["scale"])
         if k == "time":
             return make_time(v, op.get("scale", "utc"), op.get("fmt", "mjd"))
         if k == "time_delta":
@@ -833,9 +836,12 @@ def random_time_tag(rng, kind="time"):
     if kind == "time_delta":
         # there is no conversion between the scales of time deltas (UnknownConversionError): rarely
         return ("utc" if rng.random() < 0.93 else rng.choice(TIME_SCALES)), rng.choice(["days", "seconds", "jd", "timedelta"])
-    # (the formats gps_ws / gps_seconds are left out: they have no value for the empty epoch, so padding such a field
-    # raises ValueError — recorded as a finding)
-    return rng.choice(TIME_SCALES), rng.choice(TIME_FORMATS)
+    scale = rng.choice(TIME_SCALES)
+    r = rng.random()
+    if scale == "gps" and r < 0.2:
+        # formats of the GPS scale only; they have no value for the empty epoch: padding such a field is refused (ValueError)
+        return scale, ("gps_seconds" if r < 0.13 else "gps_ws")
+    return scale, rng.choice(TIME_FORMATS)
 
 
 # ---------------------------------------------------------------------------------------------
@@ -868,12 +874,18 @@ def time_history(rng) -> List[dict]:
         mode = rng.random()   # how the time fields of this dataset relate to each other
         first = None
         first_vals = None
+        first_scale = None
         for i, nm in enumerate(tnames):
             if rng.random() < 0.08:
                 continue  # missing here: padded with empty epochs by extend
             tag = ds_tag if rng.random() < 0.85 else random_time_tag(rng)
             if first is not None and mode < 0.15:
                 val = first                                 # one array under two names
+            elif first is not None and n > 0 and rng.random() < 0.15:
+                # the reading of the first field in another time scale (the cached conversion result itself) as a field
+                others = [x for x in TIME_SCALES if x != first_scale]
+                to = base_tag[0] if base_tag[0] in others and rng.random() < 0.6 else rng.choice(others)
+                val = push({"op": "obj", "kind": "time", "ndim": 1, "cols": 1, "vals": [], "conv_of": first, "scale": to})
             else:
                 if first_vals is not None and mode < 0.55:
                     vals = [list(v) for v in first_vals]    # equal epochs in a separate array
@@ -881,7 +893,7 @@ def time_history(rng) -> List[dict]:
                     vals = [[7305 + rng.choice([0, 0, 0, 1]), rng.choice(EPOCH_US)] for _ in range(n)]
                 val = push({"op": "obj", "kind": "time", "ndim": 1, "cols": 1, "vals": vals, "scale": tag[0], "fmt": tag[1]})
                 if first is None:
-                    first, first_vals = val, vals
+                    first, first_vals, first_scale = val, vals, tag[0]
             ops.append(add_op(d, ("g." if nested and i == 1 else "") + nm, "time", val, level=rng.choice([1, 2, 3])))
         ops.append(add_op(d, "x", "float", push(obj_op("float", 1, 1, tags, 2))))
         if rng.random() < 0.5:
